@@ -2,7 +2,7 @@ use itertools::Itertools;
 use regex::Regex;
 use std::borrow::Borrow;
 use std::fs::{FileType, Metadata};
-use std::path::{Component, Path, PathBuf};
+use std::path::{Component, Path, PathBuf, MAIN_SEPARATOR_STR};
 
 use crate::capture::MatchedText;
 use crate::encode::CompileError;
@@ -12,7 +12,7 @@ use crate::walk::{
     Entry, EntryResidue, FileIterator, JoinAndGetDepth, SplitAtDepth, TreeEntry, WalkBehavior,
     WalkError, WalkTree,
 };
-use crate::{BuildError, CandidatePath, Glob, Pattern};
+use crate::{BuildError, CandidatePath, Glob, Pattern, Program};
 
 /// APIs for matching globs against directory trees.
 impl<'t> Glob<'t> {
@@ -175,7 +175,11 @@ impl<'t> Glob<'t> {
         let prefix: Option<PathBuf> = {
             let (_, prefix) = self.tree.as_ref().as_token().invariant_text_prefix();
             if prefix.is_empty() {
-                None
+                // A glob may be rooted without an invariant prefix: `</root:1>*` is rooted by a
+                // repetition. Like any other rooted glob, it replaces the given directory.
+                self.has_root()
+                    .is_always()
+                    .then(|| PathBuf::from(MAIN_SEPARATOR_STR))
             }
             else {
                 Some(prefix.into())
